@@ -31,6 +31,8 @@ class C01(InterpProp):
         if rnd.random() < 0.2:
             # the event whose name is the empty string is an event like any other
             kn.empty_event = 0.15
+        if rnd.random() < 0.25:
+            kn.dups = 0.15      # a transition declared twice is two transitions (both enabled together: reported)
         if rnd.random() < 0.3:
             # the clock moves between a step and the queueing of a (delayed) event: it is due `delay` after the
             # time of the last step, and offered to the transitions from then on
